@@ -243,6 +243,42 @@ func main() {
 			}
 		}
 
+		// ---- the public Fetch handler: how the textual IDs of the request become seq.IDs, and the ID text it sends back
+		if f, err := r.Load("proxyapi/grpc_fetch.go"); err != nil {
+			e.Missing("proxyapi/grpc_fetch.go", err)
+		} else if fd := f.Func("grpcV1", "Fetch"); fd == nil {
+			e.Missing("apiFetchIDLoop", "grpcV1.Fetch not found")
+		} else {
+			var loop, sent []string
+			ast.Inspect(fd.Body, func(n ast.Node) bool {
+				switch x := n.(type) {
+				case *ast.RangeStmt:
+					if f.Render(x.X) == "req.Ids" {
+						for _, st := range x.Body.List {
+							if is, ok := st.(*ast.IfStmt); ok {
+								calls := lib.Filter(f.Calls(is.Body), func(c string) bool { return c == "append" })
+								els := ""
+								if is.Else != nil {
+									els = " else { " + f.Render(is.Else.(*ast.BlockStmt).List[0]) + " }"
+								}
+								loop = append(loop, "if "+f.Render(is.Cond)+" { appends:"+strings.Join(calls, ",")+" }"+els)
+							} else {
+								loop = append(loop, f.Render(st))
+							}
+						}
+						return false
+					}
+				case *ast.KeyValueExpr:
+					if f.Render(x.Key) == "Id" {
+						sent = append(sent, f.Render(x.Value))
+					}
+				}
+				return true
+			})
+			e.Strs("apiFetchIDLoop", loop, "grpcV1.Fetch: body of the loop over req.Ids")
+			e.Strs("apiFetchSentID", sent, "grpcV1.Fetch: the Id field of every document sent")
+		}
+
 		// ---- processor.IndexFetch: the per-block read and scatter
 		if f, err := r.Load("frac/processor/fetch.go"); err != nil {
 			e.Missing("processor/fetch.go", err)
